@@ -9,6 +9,10 @@ template directives (one per line, at column 0):
     //@ source <alias> <path relative to the repository root>
     //@ item <alias> <kind> <name> [strip_attrs] [pub_fields] [only=<fn>,<fn>]   (only=: R14, other fns of the impl dropped)
     //@ expand <alias> <macro name>          expand every top-level invocation of a ($t:ty) macro (R6)
+    //@ stmt <alias> <fn key> <let|call|kw> <name> <#n> <marker key>
+                                             R15: ONE statement of a function, verbatim (with the vspec's hints / retokens applied),
+                                             placed inside a wrapper function written in the template whose parameters are the
+                                             statement's free variables; the template brackets the wrapper with /*<fn:KEY>*/ markers
 vspec entries:
     @@ stripmacro <alias> <macro>                      R1
     @@ breakvalue <alias> <fn key> <'label> <type>     R2
@@ -198,6 +202,14 @@ class Unit:
             elif line.startswith("//@ expand "):
                 parts = line.split()
                 plan.append(("expand", parts[2], parts[3], []))
+            elif line.startswith("//@ stmt "):
+                parts = line.split()
+                alias, key, kind, name, n, mkey = parts[2], parts[3], parts[4], parts[5], int(parts[6][1:]), parts[7]
+                fn = self._fn(alias, key)
+                src = self.sources[alias]
+                lo = rsx.stmt_anchor(src, fn, "before", kind, name, n)
+                hi = rsx.stmt_anchor(src, fn, "after", kind, name, n)
+                plan.append(("stmt", alias, (fn, lo, hi, mkey, "%s %s #%d" % (kind, name, n)), []))
             elif line.startswith("//@ source "):
                 plan.append(("text", "// source %s" % line[11:], None, None))
             else:
@@ -222,6 +234,22 @@ class Unit:
                             p[2].inner = [sub for sub in p[2].inner if not (sub.kind == "fn" and sub.name not in keep)]
             top, fns, conts = self.index[alias]
             self._inject_into(alias, src, ed, top, fns, its)
+            for p in plan:
+                if p[0] == "stmt" and p[1] == alias:
+                    fn, lo, hi, mkey, what = p[2]
+                    tags = []
+                    for e in self.entries:
+                        h = e.head
+                        if h[0] == "hint" and h[1] in ("*", alias) and fn.key == h[2]:
+                            n = int(h[6][1:]) if len(h) > 6 else 1
+                            pos = rsx.stmt_anchor(src, fn, h[3], h[4], h[5], n)
+                            if not (lo <= pos <= hi):
+                                raise Drift("%s: hint `%s` lies outside the extracted statement `%s` of %s" % (
+                                    src.origin, " ".join(h), what, fn.key))
+                            rsx.inject_hint(src, ed, fn, h[3], h[4], h[5], n, e)
+                            e.used = True
+                    self.fn_meta[mkey] = dict(tags=tags, drifted=False, origin=src.origin, line=src.line_of(lo),
+                                              sha=rsx.sha(src.text[lo:hi]), contract=True)
         # render
         out = []
         for p in plan:
@@ -235,6 +263,19 @@ class Unit:
                                            sha256_16=rsx.sha(src.text[it.start:it.end])))
                 out.append("// ---- extracted: %s %s (%s:%d)" % (it.kind, it.name, src.origin, src.line_of(it.start)))
                 out.append(ed.render(it.start, it.end))
+            elif p[0] == "stmt":
+                alias = p[1]
+                fn, lo, hi, mkey, what = p[2]
+                src, ed = self.sources[alias], self.edits[alias]
+                self.items_log.append(dict(file=src.origin, kind="statement", name="%s: %s" % (fn.key, what),
+                                           line=src.line_of(lo), sha256_16=rsx.sha(src.text[lo:hi])))
+                self.rewrite_log.append(dict(rule="R15", file=src.origin, line=src.line_of(lo),
+                                             before="fn %s { .. <statement `%s`> .. }" % (fn.key, what),
+                                             after="<the statement alone, inside the template's wrapper fn>",
+                                             note="one statement extracted verbatim; the rest of the function is dropped; "
+                                                  "the wrapper's parameters stand for the statement's free variables"))
+                out.append("// ---- extracted statement: %s of fn %s (%s:%d)" % (what, fn.key, src.origin, src.line_of(lo)))
+                out.append(ed.render(lo, hi))
             elif p[0] == "expand":
                 alias, macro = p[1], p[2]
                 src, ed = self.sources[alias], self.edits[alias]
